@@ -140,6 +140,16 @@ def r1(F, R):
                 tail = tail.get("expr")
             else:
                 break
+        # the closed form has no clamps: zeta = exp(-delta) exceeds 1 for a backward step (negative step size), and the update is only its own
+        # inverse under a sign change of the step if nothing is cut off
+        CLAMPS = ("min", "max", "clamp", "abs", "signum", "copysign", "floor", "ceil", "round", "trunc")
+        cl = [x for st_ in stmts for x in hir_walk(st_) if x.get("k") == "MethodCall" and x.get("method") in CLAMPS and
+              ("f64" in str(x.get("callee")) or "f64" in str(x.get("recv_ty")))]
+        if cl:
+            R.bad("C18-R1", b.path + ":closed-form-unclamped", "%s @%s" % (b.path, loc(cl[0]["span"])), "the ESH update applies `%s` to a scalar of the closed form: for a "
+                  "backward step (negative step size) the factor exp(-delta) is legitimately above 1" % cl[0]["method"])
+        else:
+            R.ok("C18-R1", b.path + ":closed-form-unclamped", site, "no min / max / clamp / abs on the scalars of the ESH closed form")
         # find the last `for p in momentum.iter_mut() { *p *= inv }` and the definition of inv
         last_scale = None
         for st in stmts:
@@ -475,6 +485,24 @@ def r4(F, R):
         R.ok("C18-R4", b.path + ":halve-with-push", "%s @%s" % (b.path, loc(halves[0][1]["span"])), "factor *= 0.5 exactly where the stack is pushed")
     else:
         R.bad("C18-R4", b.path + ":halve-with-push", site, "%d halvings of the factor, none / not in the block that pushes the stack" % len(halves))
+    # the retry is refused once the stack holds `max_halvings` levels: the push happens only where `len < max_halvings` was established, so the
+    # depth never exceeds the limit - and with a limit of 0 (dynamic_step_size off) a faulty step is never retried
+    lim = False
+    seen_rel = []
+    for (o, l, r, _s) in Rl.edge_relations(b, pbb):
+        if r is None:
+            continue
+        for (op, x, y) in ((o, l, r), (Rl.FLIP.get(o), r, l)):
+            sx, sy = vt_str(x), vt_str(y)
+            if "len" in sx and ("max_halvings" in sy or "halving" in sy):
+                seen_rel.append((op, sx[:50], sy[:50]))
+                if op == "Lt":
+                    lim = True
+    if lim:
+        R.ok("C18-R4", b.path + ":retry-limit", "%s @%s" % (b.path, loc(b.blocks[pbb]["term"].get("span") or b.span)), "a level is pushed only while len < max_halvings")
+    else:
+        R.bad("C18-R4", b.path + ":retry-limit", site, "the push of a retry level is not guarded by `stack.len() < max_halvings` (relations at the push: %s): one level too many "
+              "is allowed, and with max_halvings = 0 (dynamic_step_size off) a faulty step is retried instead of ending the draw as a divergence" % (seen_rel or "none"))
     # Some edge of pop
     some_t = None
     for bi, blk in enumerate(b.blocks):
